@@ -1,12 +1,214 @@
-//! C04: not yet implemented
+//! C04: a created patch turns the old tree into the new tree.
+//! Cases: `pair a=<tree> b=<tree>` and `cbytes a=<tree> b=<tree>` (tree grammar:
+//! lean/PhysisModel/Base/FsText.lean); `cbytes` compares the bytes of the created patch with the model.
+//! The run stage materialises A, B and a copy of A, calls `ZiPatch::create(A, B)`, writes the patch
+//! outside the trees, applies it to the copy with `ZiPatch::apply`, and prints the regular files of
+//! the copy; `pure=1` when A and B are byte-for-byte what they were before `create`.
 #![allow(unused)]
+use crate::c03fs::*;
 use crate::util::*;
 use std::io::Write;
 
-pub fn generate(thorough: bool, seed: u64, out: &mut dyn Write) {}
+const SIZES: [usize; 22] = [
+    1, 2, 3, 4, 5, 15, 16, 17, 111, 112, 113, 127, 128, 129, 240, 255, 256, 257, 31999, 32000, 32001, 65536,
+];
+
+fn content(rng: &mut Rng, big: bool) -> String {
+    let n = match rng.below(10) {
+        0..=5 => *rng.pick(&SIZES),
+        6 | 7 => rng.range(1, 600) as usize,
+        8 => rng.range(1, 5000) as usize,
+        _ => {
+            if big {
+                rng.range(100_000, 400_000) as usize
+            } else {
+                rng.range(1, 40_000) as usize
+            }
+        }
+    };
+    if n <= 24 && rng.chance(1, 2) {
+        hex(&rng.bytes(n))
+    } else {
+        format!("~{}.{}", n, rng.below(256))
+    }
+}
+
+/// directory names start with `d`/`D`, file names with `f`/`F`/`x`: a name is never both
+fn rel_path(rng: &mut Rng) -> String {
+    let depth = match rng.below(8) {
+        0..=2 => 0,
+        3 | 4 => 1,
+        5 => 2,
+        6 => 3,
+        _ => 4,
+    };
+    let mut p = String::new();
+    for _ in 0..depth {
+        p += *rng.pick(&["d0", "d1", "Dir_2", "d.3", "sqpack", "d-x"]);
+        p.push('/');
+    }
+    p += *rng.pick(&["f0", "f1.bin", "F2.TXT", "f_3", "f-4.dat", "x.5", "f6", "f7.ver"]);
+    p
+}
+
+fn gen_pair(rng: &mut Rng, nfiles: usize, big: bool) -> String {
+    let mut a: Vec<String> = vec![];
+    let mut b: Vec<String> = vec![];
+    let mut used: Vec<String> = vec![];
+    let mut bigs = 0;
+    for _ in 0..nfiles {
+        let p = rel_path(rng);
+        if used.contains(&p) {
+            continue;
+        }
+        used.push(p.clone());
+        let allow_big = big && bigs < 2;
+        let c = content(rng, allow_big);
+        if c.starts_with("~") && c.len() > 8 {
+            bigs += 1;
+        }
+        match rng.below(4) {
+            0 => {
+                // only in A; now and then a zero-byte file (allowed in the old tree)
+                if rng.chance(1, 8) {
+                    a.push(format!("{}:-", p));
+                } else {
+                    a.push(format!("{}:{}", p, c));
+                }
+            }
+            1 => b.push(format!("{}:{}", p, c)),
+            2 => {
+                a.push(format!("{}:{}", p, c));
+                b.push(format!("{}:{}", p, c));
+            }
+            _ => {
+                a.push(format!("{}:{}", p, c));
+                // changed content: other bytes of the same length, a prefix, an extension, or unrelated
+                let c2 = loop {
+                    let c2 = content(rng, false);
+                    if c2 != c {
+                        break c2;
+                    }
+                };
+                b.push(format!("{}:{}", p, c2));
+            }
+        }
+    }
+    // an empty directory now and then (never observed by the property, but present on disk)
+    if rng.chance(1, 4) {
+        a.push("d9/dE/".to_string());
+    }
+    if rng.chance(1, 6) {
+        b.push("d8/".to_string());
+    }
+    // listing order of the case line is independent of creation order
+    for v in [&mut a, &mut b] {
+        for i in (1..v.len()).rev() {
+            let j = rng.below(i as u64 + 1) as usize;
+            v.swap(i, j);
+        }
+    }
+    let j = |v: &Vec<String>| if v.is_empty() { "-".to_string() } else { v.join(";") };
+    format!("pair a={} b={}", j(&a), j(&b))
+}
+
+pub fn generate(thorough: bool, seed: u64, out: &mut dyn Write) {
+    let mut rng = Rng::new(seed, "C04");
+    // the four classes on a single file, all boundary sizes (exhaustive over SIZES)
+    for &n in SIZES.iter() {
+        let c = format!("~{}.7", n);
+        let c2 = format!("~{}.9", n);
+        writeln!(out, "pair a=- b=f0:{}", c).unwrap();
+        writeln!(out, "pair a=f0:{} b=-", c).unwrap();
+        writeln!(out, "pair a=f0:{} b=f0:{}", c, c).unwrap();
+        writeln!(out, "pair a=f0:{} b=f0:{}", c, c2).unwrap();
+        writeln!(out, "pair a=d0/f0:{};f1:01 b=d0/f0:{};d1/d0/f2.bin:{}", c, c2, c).unwrap();
+    }
+    writeln!(out, "pair a=- b=-").unwrap();
+    // the bytes of the created patch against the writer model (listing order forced)
+    writeln!(out, "cbytes a=- b=-").unwrap();
+    for &n in SIZES.iter() {
+        writeln!(out, "cbytes a=- b=f0:~{}.7", n).unwrap();
+        writeln!(out, "cbytes a=d0/f0:~{}.7 b=-", n).unwrap();
+        writeln!(out, "cbytes a=d0/f0:~{}.7 b=d0/f0:~{}.9", n, n).unwrap();
+        writeln!(out, "cbytes a=f0:01 b=d1/Dir_2/f1.bin:~{}.3", n).unwrap();
+    }
+    let n = if thorough { 30_000 } else { 150 };
+    for i in 0..n {
+        let nfiles = match rng.below(6) {
+            0 => rng.range(0, 2),
+            1..=3 => rng.range(2, 6),
+            _ => rng.range(6, 12),
+        } as usize;
+        let big = i % 10 == 0;
+        writeln!(out, "{}", gen_pair(&mut rng, nfiles, big)).unwrap();
+    }
+}
+
+fn same(root: &std::path::Path, es: &Entries) -> bool {
+    // every entry of the case is there with its content, and nothing else is
+    let snap = snapshot(root);
+    let files: Vec<&(String, Option<Vec<u8>>)> = snap.iter().filter(|e| e.1.is_some()).collect();
+    let mut want: Vec<&(String, Option<Vec<u8>>)> = es.iter().filter(|e| e.1.is_some()).collect();
+    want.sort_by(|a, b| a.0.as_bytes().cmp(b.0.as_bytes()));
+    if files.len() != want.len() || files.iter().zip(want.iter()).any(|(x, y)| x != y) {
+        return false;
+    }
+    // directories: those of the case (and their parents) exactly
+    let mut dirs: Vec<String> = vec![];
+    for (p, c) in es {
+        let comps: Vec<&str> = p.split('/').collect();
+        let upto = if c.is_some() { comps.len() - 1 } else { comps.len() };
+        for k in 1..=upto {
+            let d = comps[..k].join("/");
+            if !dirs.contains(&d) {
+                dirs.push(d);
+            }
+        }
+    }
+    dirs.sort_by(|a, b| a.as_bytes().cmp(b.as_bytes()));
+    let have: Vec<String> = snap.iter().filter(|e| e.1.is_none()).map(|e| e.0.clone()).collect();
+    dirs == have
+}
 
 pub fn run(case: &str, input: &str) -> String {
-    "unimplemented".to_string()
+    let f: Vec<&str> = input.split(' ').collect();
+    if f.len() != 3 || (f[0] != "pair" && f[0] != "cbytes") {
+        return "bad-case".into();
+    }
+    let bytes_only = f[0] == "cbytes";
+    let (Some(a), Some(b)) = (f[1].strip_prefix("a="), f[2].strip_prefix("b=")) else {
+        return "bad-case".into();
+    };
+    let (Some(ea), Some(eb)) = (parse_tree(a), parse_tree(b)) else { return "bad-case".into() };
+    let tmp = Scratch::new("c04");
+    let (da, db, dw) = (tmp.path().join("a"), tmp.path().join("b"), tmp.path().join("w"));
+    if materialise(&da, &ea).is_err() || materialise(&db, &eb).is_err() || materialise(&dw, &ea).is_err() {
+        return "bad-case".into();
+    }
+    let patch_path = tmp.path().join("p.patch");
+    let (sa, sb, sw) = (
+        da.to_str().unwrap().to_string(),
+        db.to_str().unwrap().to_string(),
+        dw.to_str().unwrap().to_string(),
+    );
+    let pp = patch_path.to_str().unwrap().to_string();
+    let res = guarded(move || {
+        let Some(patch) = physis::patch::ZiPatch::create(&sa, &sb) else { return "none".to_string() };
+        if bytes_only {
+            return format!("patch={}", show_content(&patch));
+        }
+        std::fs::write(&pp, &patch).unwrap();
+        match physis::patch::ZiPatch::apply(&sw, &pp) {
+            Ok(()) => "ok".to_string(),
+            Err(e) => format!("err:{:?}", e),
+        }
+    });
+    if res.starts_with("panic") || res == "none" || bytes_only {
+        return res;
+    }
+    let pure = same(&da, &ea) && same(&db, &eb);
+    format!("{} files={} pure={}", res, dump_tree(&dw, false), if pure { 1 } else { 0 })
 }
 
 pub fn dump(out: &mut dyn Write) {}
